@@ -28,15 +28,15 @@ func init() {
 }
 
 func runC01(c *core.Ctx) {
-	ruleClassTable(c, "C01-R1", "pdf")
-	ruleNameEscape(c, "C01-R2", "pdf")
-	ruleStringEscapes(c, "C01-R3", "pdf")
-	ruleHexString(c, "C01-R4", "pdf")
-	ruleSeparators(c, "C01-R5")
-	ruleRealDot(c)
-	ruleFormatDeterminism(c)
-	ruleRefLimits(c, "C01-R8")
-	ruleRealParse(c, "C01-R9", [2]string{"pdf", "(*scanner).ReadNumber"})
+	c.Guard(func() { ruleClassTable(c, "C01-R1", "pdf") })
+	c.Guard(func() { ruleNameEscape(c, "C01-R2", "pdf") })
+	c.Guard(func() { ruleStringEscapes(c, "C01-R3", "pdf") })
+	c.Guard(func() { ruleHexString(c, "C01-R4", "pdf") })
+	c.Guard(func() { ruleSeparators(c, "C01-R5") })
+	c.Guard(func() { ruleRealDot(c) })
+	c.Guard(func() { ruleFormatDeterminism(c) })
+	c.Guard(func() { ruleRefLimits(c, "C01-R8") })
+	c.Guard(func() { ruleRealParse(c, "C01-R9", [2]string{"pdf", "(*scanner).ReadNumber"}) })
 }
 
 // ruleHexString: "<%x>" on the writer side; reader's digit alphabet is [0-9A-Fa-f].
@@ -618,16 +618,19 @@ func ruleRealDot(c *core.Ctx) {
 		}
 		// the guard: a condition !strings.Contains(s, ".") whose true edge appends "."
 		var guard *core.V
+		noDot := core.EdgeTrue // the edge of the guard on which the text has no '.'
 		for _, v := range g.BranchVertices() {
 			if v.AST == nil || v.AST.Pos() < cc.Pos() || v.AST.End() > cc.End() {
 				continue
 			}
-			for _, a := range v.Implied(core.EdgeTrue) {
-				if call, ok := a.HoldsCall(info, true, "strings.Contains", "strings.ContainsRune", "strings.ContainsAny"); ok {
-					if s, ok := core.StringConst(info, call.Args[1]); ok && s == "." {
-						guard = v
-					} else if k, ok := core.IntConst(info, call.Args[1]); ok && k == '.' {
-						guard = v
+			for _, lab := range []core.EdgeLabel{core.EdgeTrue, core.EdgeFalse} {
+				for _, a := range v.Implied(lab) {
+					if call, ok := a.HoldsCall(info, true, "strings.Contains", "strings.ContainsRune", "strings.ContainsAny"); ok {
+						if s, ok := core.StringConst(info, call.Args[1]); ok && s == "." {
+							guard, noDot = v, lab
+						} else if k, ok := core.IntConst(info, call.Args[1]); ok && k == '.' {
+							guard, noDot = v, lab
+						}
 					}
 				}
 			}
@@ -637,9 +640,13 @@ func ruleRealDot(c *core.Ctx) {
 			return
 		}
 		// on the true edge a "." must be appended to the string that is written
-		tv := succ(guard, core.EdgeTrue)
+		hasDot := core.EdgeFalse
+		if noDot == core.EdgeFalse {
+			hasDot = core.EdgeTrue
+		}
+		tv := succ(guard, noDot)
 		appended := false
-		for v := range g.ReachFrom(tv, true, core.AvoidVs(succ(guard, core.EdgeFalse))) {
+		for v := range g.ReachFrom(tv, true, core.AvoidVs(succ(guard, hasDot))) {
 			if as, ok := v.AST.(*ast.AssignStmt); ok && v.AST.Pos() >= cc.Pos() && v.AST.End() <= cc.End() {
 				for _, r := range as.Rhs {
 					ast.Inspect(r, func(n ast.Node) bool {
